@@ -41,6 +41,19 @@ structure Holds (cfg : Cfg) : Prop where
   apiNameRejects : ∀ name : Bytes, createFileCfg cfg name 0 = none → apiAcceptsName cfg name = false
   /-- the chronicler's INSERT / UPDATE choice cannot change what is read back -/
   opChoice : ∀ ts : List Treasure, specOf ((ts.map entryOf).map asInsert) = specOf (ts.map entryOf)
+  /-- compaction of a closed file keeps every record and the name -/
+  compaction : ∀ (codec : Codec) (crc : Checksum) (bs : Nat) (name : Bytes) (now now' : Nat) (ops : List Op),
+    maxSizeOf bs ≤ 2 ^ 30 → name.length < 2 ^ 16 → name ≠ [] → PayloadsSane ops →
+    ∃ idx idx',
+      loadIndex cfg codec.toDecoder crc (runOps cfg codec crc bs (createFile name now) (ops ++ [.close])).file = .ok (idx, name) ∧
+      loadIndex cfg codec.toDecoder crc
+        (compactSt cfg codec crc bs now' (runOps cfg codec crc bs (createFile name now) (ops ++ [.close]))).1.file = .ok (idx', name) ∧
+      ∀ k, idx'.find k = idx.find k
+  /-- `chroniclerV2.Load` (with or without its self-heal compaction) delivers the Spec state's decodable records -/
+  chronLoads : ∀ (codec : Codec) (crc : Checksum) (bs : Nat) (name : Bytes) (now now' : Nat) (ops : List Op) (heals : Bool),
+    maxSizeOf bs ≤ 2 ^ 30 → name.length < 2 ^ 16 → name ≠ [] → PayloadsSane ops →
+    (chronLoad cfg codec crc bs now' name heals (runOps cfg codec crc bs (createFile name now) (ops ++ [.close]))).1
+      = (specFold cfg (ops ++ [.close])).filter (fun p => !p.2.isEmpty)
   /-- whatever has left the write buffer loads to the Spec state of exactly those acknowledged
       writes (after flush/sync/close: of all acknowledged writes) -/
   replays : ∀ (codec : Codec) (crc : Checksum) (bs : Nat) (name : Bytes) (now : Nat) (ops : List Op),
@@ -81,33 +94,6 @@ theorem encodable_of_accepts (cfg : Cfg) (h1 : cfg.rejectsEmptyKey = true) (h2 :
   cases hkey : e.key with
   | nil => simp [hkey] at hk
   | cons _ _ => simp
-
-/-- **C01 holds** for every history, block size, name, codec and checksum when `WriteEntry`
-    validates keys, the buffer flushes before the 16-bit count wraps and `LoadIndex` handles deletes. -/
-theorem holds_of_good (cfg : Cfg) (hg : Good cfg) : Holds cfg := by
-  obtain ⟨h1, h2, h3, h4, h5, h6⟩ := hg
-  refine ⟨encodable_of_accepts cfg h1 h2, ?_, ?_, fun ts => insert_update_equivalent _, ?_⟩
-  · intro t hd hne
-    have h5' : (cfg.chronSurfacesError || cfg.apiValidatesKeys) = true := by
-      rcases h5 with h | h <;> simp [h]
-    simp only [apiReports, h5', Bool.true_and, Bool.not_eq_true']
-    cases ha : accepts cfg (entryOf t) with
-    | false => rfl
-    | true =>
-      exfalso; apply hne
-      apply encodable_of_accepts cfg h1 h2 _ _ ha
-      unfold entryOf; split <;> simp <;> omega
-  · intro name hc
-    unfold createFileCfg at hc
-    split at hc
-    · rename_i hcond
-      simp only [Bool.and_eq_true, decide_eq_true_eq] at hcond
-      simp [apiAcceptsName, h6 hcond.1, hcond.2]
-    · cases hc
-  intro codec crc bs name now ops hbs hn hp
-  have hP : Params cfg bs := ⟨hbs, Or.inl h4⟩
-  have hW : WritesOK cfg ops := fun e he ha => ⟨encodable_of_accepts cfg h1 h2 e (hp e he) ha, hp e he⟩
-  exact replays_partial cfg h3 codec crc bs name now ops hP hn hW
 
 /-! ### Non-vacuity: a three-session history with updates and deletes meets every hypothesis -/
 
@@ -185,8 +171,11 @@ theorem not_holds_of_apiAcceptsLongName (cfg : Cfg) (h : cfg.rejectsLongName = t
   simp [h'] at this
 
 /-- wherever a block holding one of these two accepted entries sits in a file, `LoadIndex` of the
-    whole file fails with `ErrEmptyKey`: every record of the swamp becomes unreadable -/
-theorem badEntry_poisons_file (cfg : Cfg) (codec : Codec) (crc : Checksum) (h : FileHeader) (name : Bytes)
+    whole file fails with `ErrEmptyKey`: every record of the swamp becomes unreadable.  (With the
+    zero-filled-tail rule the same block, when it is the last one and ends in a zero byte — an
+    empty payload does — is silently taken for the end of the data instead: the record is lost
+    without an error; `readNextBlock_of_core_err`.) -/
+theorem badEntry_poisons_file (cfg : Cfg) (hzt : cfg.zeroTailIsEOF = false) (codec : Codec) (crc : Checksum) (h : FileHeader) (name : Bytes)
     (before : List (List Entry)) (tail : Bytes) (e : Entry) (he : e = emptyKeyEntry ∨ e = longKeyEntry)
     (hv : h.Valid) (hn : NameOk h name) (hg : ∀ b ∈ before, GoodBlock b) :
     loadIndex cfg codec.toDecoder crc
@@ -195,7 +184,8 @@ theorem badEntry_poisons_file (cfg : Cfg) (codec : Codec) (crc : Checksum) (h : 
   apply loadIndex_poisoned cfg codec crc h name before [e] tail hv hn hg
   have hsz : sizeSum [e] < 2 ^ 31 + 2 ^ 17 := by
     rcases he with h | h <;> subst h <;> simp [sizeSum, Entry.size, emptyKeyEntry, longKeyEntry, longKey_length]
-  rw [readNextBlock_encodeBlock_gen cfg codec crc [e] tail (by simp) hsz]
+  apply readNextBlock_of_core_err' _ (fun _ => csize_encodeBlock_ne_zero codec crc [e] tail hsz (by simp)) hzt
+  rw [readNextBlockCore_encodeBlock_gen cfg codec crc [e] tail (by simp) hsz]
   have : parseEntries 1 (encodeEntries [e]) = .error .emptyKey := by
     have hd : decodeEntry (encodeEntries [e]) = .error .emptyKey := by
       rcases he with h | h <;> subst h
@@ -388,6 +378,160 @@ where
     rw [ho]
     simp [hver]
 
+/-! ### Compaction and `chroniclerV2.Load` on top of the same writer -/
+
+theorem accepted_ok (cfg : Cfg) (ops : List Op) (hW : WritesOK cfg ops) (b : Bool) : ∀ e ∈ accepted cfg b ops, EntryOK e := by
+  induction ops generalizing b with
+  | nil => intro e he; simp [accepted] at he
+  | cons op ops ih =>
+    obtain ⟨h1, h2⟩ := writesOK_cons cfg op ops hW
+    intro e he
+    simp only [accepted, List.mem_append] at he
+    rcases he with he | he
+    · cases op <;> cases b <;> simp [acceptedBy] at he
+      rename_i e'
+      obtain ⟨ha, rfl⟩ := he
+      exact h1 e rfl ha
+    · exact ih h2 _ e he
+
+/-- rewriting a file from its live index (one INSERT per record, then `Close`) yields a file that
+    loads to the same map under the same name — the common core of `Compactor.Compact` and
+    `CompactFromIndex` -/
+theorem rewrite_preserves_index (cfg : Cfg) (hd : cfg.deleteRemoves = true) (codec : Codec) (crc : Checksum) (bs : Nat)
+    (hP : Params cfg bs) (now : Nat) (nm : Bytes) (hn : nm.length < 2 ^ 16) (es : List Entry) (hes : ∀ e ∈ es, EntryOK e) :
+    ∃ idx', loadIndex cfg codec.toDecoder crc
+        (runOps cfg codec crc bs (createFile nm now) (((specOf es).map fun p => Op.write ⟨opInsert, p.1, p.2⟩) ++ [.close])).file
+          = .ok (idx', if nm.isEmpty then [] else nm) ∧
+      ∀ k, idx'.find k = (specOf es).find k := by
+  have hok : ∀ p ∈ specOf es, EntryOK ⟨opInsert, p.1, p.2⟩ :=
+    mem_specOf es (fun k v => EntryOK ⟨opInsert, k, v⟩) (fun e he => by
+      obtain ⟨⟨h0, h1, h2⟩, h3⟩ := hes e he
+      exact ⟨⟨h0, h1, h2⟩, h3⟩)
+  obtain ⟨idx', hload, hfind, _⟩ := inserts_roundtrip cfg hd codec crc bs hP nm now hn (specOf es) (keysNodup_specOf es) hok
+  exact ⟨idx', hload, fun k => by rw [hfind k]; rfl⟩
+
+/-- **compaction_preserves_index**: after any history that ends with `Close`, `Compactor.Compact`
+    (forced) leaves a file that loads to the same records under the same name. -/
+theorem compaction_preserves_index (cfg : Cfg) (hd : cfg.deleteRemoves = true) (codec : Codec) (crc : Checksum) (bs : Nat)
+    (hP : Params cfg bs) (name : Bytes) (now now' : Nat) (hn : name.length < 2 ^ 16) (hne : name ≠ [])
+    (ops : List Op) (hW : WritesOK cfg ops) :
+    ∃ idx idx',
+      loadIndex cfg codec.toDecoder crc (runOps cfg codec crc bs (createFile name now) (ops ++ [.close])).file = .ok (idx, name) ∧
+      loadIndex cfg codec.toDecoder crc
+        (compactSt cfg codec crc bs now' (runOps cfg codec crc bs (createFile name now) (ops ++ [.close]))).1.file = .ok (idx', name) ∧
+      ∀ k, idx'.find k = idx.find k := by
+  have hW' : WritesOK cfg (ops ++ [.close]) := by
+    intro e he ha
+    apply hW e _ ha
+    have : ∀ l : List Op, writesOf (l ++ [.close]) = writesOf l := by
+      intro l; induction l with
+      | nil => rfl
+      | cons o l ih => cases o <;> simp [writesOf, ih]
+    rwa [this] at he
+  have hemp : name.isEmpty = false := by cases name with | nil => exact absurd rfl hne | cons _ _ => rfl
+  obtain ⟨fl, hfl, hload⟩ := loadIndex_runOps cfg codec crc bs hP name now hn (ops ++ [.close]) hW'
+  rw [pending_after_close, List.append_nil] at hfl
+  subst hfl
+  simp only [hemp, Bool.false_eq_true, if_false] at hload
+  have hes := accepted_ok cfg (ops ++ [.close]) hW' true
+  obtain ⟨idx', hload', hfind⟩ := rewrite_preserves_index cfg hd codec crc bs hP now' name hn _ hes
+  simp only [hemp, Bool.false_eq_true, if_false] at hload'
+  have hsess : (runOps cfg codec crc bs (createFile name now) (ops ++ [.close])).sess = none := by
+    simp only [runOps, List.foldl_append, List.foldl_cons, List.foldl_nil]
+    generalize List.foldl (fun s o => (step cfg codec crc bs s o).1) (createFile name now) ops = s
+    obtain ⟨f, sess⟩ := s
+    cases sess <;> simp [step]
+  have hcf : createFileCfg cfg name now' = some (createFile name now') := by
+    unfold createFileCfg
+    rw [if_neg]
+    simp only [Bool.and_eq_true, decide_eq_true_eq, not_and, Nat.not_lt]
+    intro _; omega
+  refine ⟨_, idx', hload, ?_, fun k => by rw [hfind k, replay_eq_specOf cfg hd]⟩
+  simp only [compactSt, hsess, hload, hcf]
+  rw [replay_eq_specOf cfg hd]
+  exact hload'
+
+/-- **load_replays**: `chroniclerV2.Load` hands the swamp exactly the records of the Spec state that
+    have a non-empty payload (an empty one cannot be decoded into a treasure and is skipped), and —
+    whether or not it self-heals by `CompactFromIndex` — leaves a file that loads to the same map. -/
+theorem load_replays (cfg : Cfg) (hd : cfg.deleteRemoves = true) (codec : Codec) (crc : Checksum) (bs : Nat)
+    (hP : Params cfg bs) (name : Bytes) (now now' : Nat) (hn : name.length < 2 ^ 16) (hne : name ≠ [])
+    (ops : List Op) (hW : WritesOK cfg ops) (heals : Bool) :
+    let st := runOps cfg codec crc bs (createFile name now) (ops ++ [.close])
+    (chronLoad cfg codec crc bs now' name heals st).1 = (specFold cfg (ops ++ [.close])).filter (fun p => !p.2.isEmpty) ∧
+    ∃ idx', loadIndex cfg codec.toDecoder crc (chronLoad cfg codec crc bs now' name heals st).2.file = .ok (idx', name) ∧
+      ∀ k, idx'.find k = (specFold cfg (ops ++ [.close])).find k := by
+  intro st
+  have hW' : WritesOK cfg (ops ++ [.close]) := by
+    intro e he ha
+    apply hW e _ ha
+    have : ∀ l : List Op, writesOf (l ++ [.close]) = writesOf l := by
+      intro l; induction l with
+      | nil => rfl
+      | cons o l ih => cases o <;> simp [writesOf, ih]
+    rwa [this] at he
+  have hemp : name.isEmpty = false := by cases name with | nil => exact absurd rfl hne | cons _ _ => rfl
+  obtain ⟨fl, hfl, hload⟩ := loadIndex_runOps cfg codec crc bs hP name now hn (ops ++ [.close]) hW'
+  rw [pending_after_close, List.append_nil] at hfl
+  subst hfl
+  simp only [hemp, Bool.false_eq_true, if_false] at hload
+  rw [replay_eq_specOf cfg hd] at hload
+  have hsess : st.sess = none := by
+    simp only [st, runOps, List.foldl_append, List.foldl_cons, List.foldl_nil]
+    generalize List.foldl (fun s o => (step cfg codec crc bs s o).1) (createFile name now) ops = s
+    obtain ⟨f, sess⟩ := s
+    cases sess <;> simp [step]
+  have hcf : createFileCfg cfg name now' = some (createFile name now') := by
+    unfold createFileCfg
+    rw [if_neg]
+    simp only [Bool.and_eq_true, decide_eq_true_eq, not_and, Nat.not_lt]
+    intro _; omega
+  obtain ⟨idx', hload', hfind⟩ := rewrite_preserves_index cfg hd codec crc bs hP now' name hn _ (accepted_ok cfg (ops ++ [.close]) hW' true)
+  simp only [hemp, Bool.false_eq_true, if_false] at hload'
+  unfold chronLoad
+  simp only [st] at hsess ⊢
+  rw [hload]
+  simp only [hemp, Bool.false_eq_true, if_false, hsess, Option.isNone_none, Bool.and_true]
+  refine ⟨rfl, ?_⟩
+  cases heals with
+  | false => exact ⟨_, hload, fun _ => rfl⟩
+  | true =>
+    simp only [if_true, compactFromIndexSt, hcf]
+    exact ⟨idx', hload', hfind⟩
+
+/-- **C01 holds** for every history, block size, name, codec and checksum when `WriteEntry`
+    validates keys, the buffer flushes before the 16-bit count wraps and `LoadIndex` handles deletes. -/
+theorem holds_of_good (cfg : Cfg) (hg : Good cfg) : Holds cfg := by
+  obtain ⟨h1, h2, h3, h4, h5, h6⟩ := hg
+  refine ⟨encodable_of_accepts cfg h1 h2, ?_, ?_, fun ts => insert_update_equivalent _, ?_, ?_, ?_⟩
+  · intro t hd hne
+    have h5' : (cfg.chronSurfacesError || cfg.apiValidatesKeys) = true := by
+      rcases h5 with h | h <;> simp [h]
+    simp only [apiReports, h5', Bool.true_and, Bool.not_eq_true']
+    cases ha : accepts cfg (entryOf t) with
+    | false => rfl
+    | true =>
+      exfalso; apply hne
+      apply encodable_of_accepts cfg h1 h2 _ _ ha
+      unfold entryOf; split <;> simp <;> omega
+  · intro name hc
+    unfold createFileCfg at hc
+    split at hc
+    · rename_i hcond
+      simp only [Bool.and_eq_true, decide_eq_true_eq] at hcond
+      simp [apiAcceptsName, h6 hcond.1, hcond.2]
+    · cases hc
+  · intro codec crc bs name now now' ops hbs hn hne hp
+    have hW : WritesOK cfg ops := fun e he ha => ⟨encodable_of_accepts cfg h1 h2 e (hp e he) ha, hp e he⟩
+    exact compaction_preserves_index cfg h3 codec crc bs ⟨hbs, Or.inl h4⟩ name now now' hn hne ops hW
+  · intro codec crc bs name now now' ops heals hbs hn hne hp
+    have hW : WritesOK cfg ops := fun e he ha => ⟨encodable_of_accepts cfg h1 h2 e (hp e he) ha, hp e he⟩
+    exact (load_replays cfg h3 codec crc bs ⟨hbs, Or.inl h4⟩ name now now' hn hne ops hW heals).1
+  intro codec crc bs name now ops hbs hn hp
+  have hP : Params cfg bs := ⟨hbs, Or.inl h4⟩
+  have hW : WritesOK cfg ops := fun e he ha => ⟨encodable_of_accepts cfg h1 h2 e (hp e he) ha, hp e he⟩
+  exact replays_partial cfg h3 codec crc bs name now ops hP hn hW
+
 /-! ### Decision over the extracted facts -/
 
 /-- which write of `flushLocked` comes first, second, third -/
@@ -431,6 +575,15 @@ structure Facts where
   /-- `openExistingFile` truncates the file behind the last complete block (proved to be the identity
       on every file the writer leaves behind: `openExisting_ok`) -/
   openCutsTornTail : Tri
+  /-- the walk stops at a zero size field (`next == end+BlockHeaderSize`) -/
+  openStopsAtZeroSize : Tri
+  /-- a header of 64 zero bytes: the file is replaced by a fresh one (`startOver`) -/
+  openRestartsZeroHeader : Tri
+  /-- the last walked block is cut as well when its checksum does not match (`blockIntactAt`) -/
+  openChecksLastBlock : Tri
+  /-- open fails and leaves the file alone when an intact block lies behind the cut point
+      (`intactBlockBehind`) -/
+  openSparesMidDamage : Tri
   /-- `createNewFile` refuses a swamp name longer than 65535 bytes (the C29 fact) -/
   writerRejectsLongName : Tri
   /-- `isValidSwampName` bounds the name length by 65535 -/
@@ -448,7 +601,8 @@ def cfgOf (f : Facts) : Cfg :=
     apiValidatesKeys := f.apiValidatesKeys.isYes
     rejectsLongName := f.writerRejectsLongName.isYes
     apiBoundsNameLength := f.apiBoundsNameLength.isYes
-    openCutsTornTail := f.openCutsTornTail.isYes }
+    openCutsTornTail := f.openCutsTornTail.isYes
+    openStopsAtZeroSize := f.openStopsAtZeroSize.isYes }
 
 /-- the model's fixed layout is the code's layout -/
 def layoutOk (f : Facts) : Bool :=
@@ -463,6 +617,13 @@ def hasUnknown (f : Facts) : Bool :=
   f.writerRejectsLongName == .unknown || (f.writerRejectsLongName == .yes && f.apiBoundsNameLength == .unknown) ||
   (f.chronSurfacesError != .yes && f.apiValidatesKeys != .yes && (f.chronSurfacesError == .unknown || f.apiValidatesKeys == .unknown))
 
+/-- the branches of `openExistingFile` for files the writer alone never leaves behind: whether they
+    are there does not matter to `Holds` (`openExisting_ok`: none is taken on a writer-produced
+    file), an unrecognised shape of that code does -/
+def openUnknown (f : Facts) : Bool :=
+  f.openStopsAtZeroSize == .unknown || f.openRestartsZeroHeader == .unknown ||
+  f.openChecksLastBlock == .unknown || f.openSparesMidDamage == .unknown
+
 def findings (f : Facts) : List String :=
   (if f.rejectsEmptyKey == .no then ["C01-empty-key-accepted"] else []) ++
   (if f.rejectsLongKey == .no then ["C01-long-key-accepted"] else []) ++
@@ -473,6 +634,7 @@ def findings (f : Facts) : List String :=
 
 def classify (f : Facts) : Verdict :=
   if !layoutOk f then .undetermined "storage layout facts (field widths / flush order / metadata handling / per-entry flush in WriteEntries and compaction / scan-to-EOF) differ from the model"
+  else if openUnknown f then .undetermined "openExistingFile (zero header / torn-tail walk / last-block check / mid-file damage) was not recognised"
   else if hasUnknown f then .undetermined "a WriteEntry / WriteBuffer.Add / LoadIndex pattern was not recognised"
   else if !(findings f).isEmpty then .violated (findings f)
   else .holds
@@ -486,47 +648,49 @@ theorem classify_sound (f : Facts) : (classify f).Sound (Holds (cfgOf f)) (Parti
   · trivial
   · split
     · trivial
-    · rename_i hl hu
-      simp only [hasUnknown, Bool.or_eq_true, beq_iff_eq, not_or] at hu
-      obtain ⟨⟨⟨⟨⟨⟨⟨⟨hu1, hu2⟩, _⟩, hu4⟩, hu5⟩, _⟩, hu7⟩, hu8⟩, hu6⟩ := hu
-      have hpart : Partial f := by
-        intro hd
-        exact replays_partial (cfgOf f) (by simp [cfgOf, hd, Tri.isYes])
-      split
-      · rename_i hf
-        refine ⟨?_, hpart⟩
-        by_cases h1 : f.rejectsEmptyKey = .no
-        · exact not_holds_of_acceptsEmptyKey _ (by simp [cfgOf, h1, Tri.isYes])
-        · by_cases h2 : f.rejectsLongKey = .no
-          · exact not_holds_of_acceptsLongKey _ (by simp [cfgOf, h2, Tri.isYes])
-          · by_cases h3 : f.deleteRemoves = .no
-            · exact not_holds_of_noDelete _ (by simp [cfgOf, h3, Tri.isYes])
-            · by_cases h4 : f.flushAtCount = .no
-              · exact not_holds_of_noCountFlush _ (by simp [cfgOf, h4, Tri.isYes])
-              · by_cases h5 : f.chronSurfacesError = .no ∧ f.apiValidatesKeys = .no
-                · exact not_holds_of_silentDrop _ (by simp [cfgOf, h5.1, Tri.isYes]) (by simp [cfgOf, h5.2, Tri.isYes])
-                · by_cases h6 : f.writerRejectsLongName = .yes ∧ f.apiBoundsNameLength = .no
-                  · exact not_holds_of_apiAcceptsLongName _ (by simp [cfgOf, h6.1, Tri.isYes]) (by simp [cfgOf, h6.2, Tri.isYes])
-                  · exfalso
-                    have e5 : (f.chronSurfacesError == .no && f.apiValidatesKeys == .no) = false := by
-                      cases ha : f.chronSurfacesError <;> cases hb : f.apiValidatesKeys <;> simp_all
-                    have e6 : (f.writerRejectsLongName == .yes && f.apiBoundsNameLength == .no) = false := by
-                      cases ha : f.writerRejectsLongName <;> cases hb : f.apiBoundsNameLength <;> simp_all
-                    simp [findings, h1, h2, h3, h4, e5, e6] at hf
-      · rename_i hf
-        have h1 : f.rejectsEmptyKey = .yes := by
-          cases h : f.rejectsEmptyKey <;> simp_all [findings]
-        have h2 : f.rejectsLongKey = .yes := by
-          cases h : f.rejectsLongKey <;> simp_all [findings]
-        have h3 : f.deleteRemoves = .yes := by
-          cases h : f.deleteRemoves <;> simp_all [findings]
-        have h4 : f.flushAtCount = .yes := by
-          cases h : f.flushAtCount <;> simp_all [findings]
-        have h5 : f.chronSurfacesError.isYes = true ∨ f.apiValidatesKeys.isYes = true := by
-          cases ha : f.chronSurfacesError <;> cases hb : f.apiValidatesKeys <;> simp_all [findings, Tri.isYes]
-        have h6 : f.writerRejectsLongName.isYes = true → f.apiBoundsNameLength.isYes = true := by
-          cases ha : f.writerRejectsLongName <;> cases hb : f.apiBoundsNameLength <;> simp_all [findings, Tri.isYes]
-        exact holds_of_good _ ⟨by simp [cfgOf, h1, Tri.isYes], by simp [cfgOf, h2, Tri.isYes],
-          by simp [cfgOf, h3, Tri.isYes], by simp [cfgOf, h4, Tri.isYes], by simpa [cfgOf] using h5, by simpa [cfgOf] using h6⟩
+    · split
+      · trivial
+      · rename_i hl ho hu
+        simp only [hasUnknown, Bool.or_eq_true, beq_iff_eq, not_or] at hu
+        obtain ⟨⟨⟨⟨⟨⟨⟨⟨hu1, hu2⟩, _⟩, hu4⟩, hu5⟩, _⟩, hu7⟩, hu8⟩, hu6⟩ := hu
+        have hpart : Partial f := by
+          intro hd
+          exact replays_partial (cfgOf f) (by simp [cfgOf, hd, Tri.isYes])
+        split
+        · rename_i hf
+          refine ⟨?_, hpart⟩
+          by_cases h1 : f.rejectsEmptyKey = .no
+          · exact not_holds_of_acceptsEmptyKey _ (by simp [cfgOf, h1, Tri.isYes])
+          · by_cases h2 : f.rejectsLongKey = .no
+            · exact not_holds_of_acceptsLongKey _ (by simp [cfgOf, h2, Tri.isYes])
+            · by_cases h3 : f.deleteRemoves = .no
+              · exact not_holds_of_noDelete _ (by simp [cfgOf, h3, Tri.isYes])
+              · by_cases h4 : f.flushAtCount = .no
+                · exact not_holds_of_noCountFlush _ (by simp [cfgOf, h4, Tri.isYes])
+                · by_cases h5 : f.chronSurfacesError = .no ∧ f.apiValidatesKeys = .no
+                  · exact not_holds_of_silentDrop _ (by simp [cfgOf, h5.1, Tri.isYes]) (by simp [cfgOf, h5.2, Tri.isYes])
+                  · by_cases h6 : f.writerRejectsLongName = .yes ∧ f.apiBoundsNameLength = .no
+                    · exact not_holds_of_apiAcceptsLongName _ (by simp [cfgOf, h6.1, Tri.isYes]) (by simp [cfgOf, h6.2, Tri.isYes])
+                    · exfalso
+                      have e5 : (f.chronSurfacesError == .no && f.apiValidatesKeys == .no) = false := by
+                        cases ha : f.chronSurfacesError <;> cases hb : f.apiValidatesKeys <;> simp_all
+                      have e6 : (f.writerRejectsLongName == .yes && f.apiBoundsNameLength == .no) = false := by
+                        cases ha : f.writerRejectsLongName <;> cases hb : f.apiBoundsNameLength <;> simp_all
+                      simp [findings, h1, h2, h3, h4, e5, e6] at hf
+        · rename_i hf
+          have h1 : f.rejectsEmptyKey = .yes := by
+            cases h : f.rejectsEmptyKey <;> simp_all [findings]
+          have h2 : f.rejectsLongKey = .yes := by
+            cases h : f.rejectsLongKey <;> simp_all [findings]
+          have h3 : f.deleteRemoves = .yes := by
+            cases h : f.deleteRemoves <;> simp_all [findings]
+          have h4 : f.flushAtCount = .yes := by
+            cases h : f.flushAtCount <;> simp_all [findings]
+          have h5 : f.chronSurfacesError.isYes = true ∨ f.apiValidatesKeys.isYes = true := by
+            cases ha : f.chronSurfacesError <;> cases hb : f.apiValidatesKeys <;> simp_all [findings, Tri.isYes]
+          have h6 : f.writerRejectsLongName.isYes = true → f.apiBoundsNameLength.isYes = true := by
+            cases ha : f.writerRejectsLongName <;> cases hb : f.apiBoundsNameLength <;> simp_all [findings, Tri.isYes]
+          exact holds_of_good _ ⟨by simp [cfgOf, h1, Tri.isYes], by simp [cfgOf, h2, Tri.isYes],
+            by simp [cfgOf, h3, Tri.isYes], by simp [cfgOf, h4, Tri.isYes], by simpa [cfgOf] using h5, by simpa [cfgOf] using h6⟩
 
 end Hv.C01
